@@ -137,6 +137,8 @@ type CaseIn struct {
 	Fn    bool `json:"fn"`
 	Lint  bool `json:"lint"`
 	Files int  `json:"files"`
+	// also call DetermineEnabledAggregateRules (each Determine* call compiles the whole bundle)
+	EnabledAgg bool `json:"enabled_agg"`
 }
 
 type CaseOut struct {
@@ -497,11 +499,13 @@ func (e *env) runCase(c *CaseIn) CaseOut {
 			o.EnabledErr = err.Error()
 		}
 		o.Enabled = nn(en)
-		ena, err := l.DetermineEnabledAggregateRules(e.ctx)
-		if err != nil {
-			o.EnabledErr += " / " + err.Error()
+		if c.EnabledAgg {
+			ena, err := l.DetermineEnabledAggregateRules(e.ctx)
+			if err != nil {
+				o.EnabledErr += " / " + err.Error()
+			}
+			o.EnabledAgg = nn(ena)
 		}
-		o.EnabledAgg = nn(ena)
 	}
 	return o
 }
@@ -648,7 +652,12 @@ func main() {
 
 		// ---- exhaustive function level
 		for _, custom := range []bool{false, true} {
-			ps := []int{0, 1, 2, 3, 4}
+			// provided level missing / without a level (p = 0, 1) cannot happen for a bundled rule (an obligation on
+			// Gen/RulesTable.v); the model is compared on them in the thorough tier only
+			ps := []int{2, 3, 4}
+			if tier == "thorough" {
+				ps = []int{0, 1, 2, 3, 4}
+			}
 			if custom {
 				ps = []int{4}
 			}
@@ -657,7 +666,7 @@ func main() {
 					for c := 0; c < 5; c++ {
 						for g := 0; g < 4; g++ {
 							for f := 0; f < 64; f++ {
-								decoy := rng.Bool()
+								decoy := (p+u+c+g+f)%2 == 1 // the lists also name another rule / category in every other case
 								add("fn", map[string]any{"k": b2i(custom), "p": p, "u": u, "c": c, "g": g, "nu": 0, "f": f, "d": b2i(decoy)},
 									codeCase(custom, p, u, c, g, false, f, decoy))
 							}
@@ -665,15 +674,15 @@ func main() {
 					}
 				}
 				for f := 0; f < 64; f++ { // no user configuration at all
-					decoy := rng.Bool()
+					decoy := (p+f)%2 == 1
 					add("fn", map[string]any{"k": b2i(custom), "p": p, "u": 0, "c": 0, "g": 0, "nu": 1, "f": f, "d": b2i(decoy)},
 						codeCase(custom, p, 0, 0, 0, true, f, decoy))
 				}
 			}
 		}
 		// ---- full Lint + DetermineEnabledRules on sampled combinations (reduced and real provided config)
-		nLint := 48
-		nGen := 64
+		nLint := 32
+		nGen := 48
 		if tier == "thorough" {
 			nLint, nGen = 1000, 1200
 		}
@@ -692,6 +701,7 @@ func main() {
 			}
 			ci := codeCase(custom, p, u, c, g, noUser, f, false)
 			ci.Lint = true
+			ci.EnabledAgg = rng.Below(4) == 0
 			ci.Files = []int{1, 3}[rng.Below(2)]
 			if rng.Below(3) == 0 {
 				// the real provided configuration: the bundled rule's default is what data.yaml says
@@ -852,7 +862,7 @@ func genCase(rng *hutil.Rng, bundledInfo map[string]any, i int) CaseIn {
 		p.DisableAll, p.EnableAll = rng.Below(4) == 0, rng.Below(4) == 0
 	}
 	ci := CaseIn{FullBundle: true, User: map[string]any{"rules": doc}, Params: p, Custom: custom, Cat: cat, Title: title,
-		Fn: true, Lint: true, Files: 1}
+		Fn: true, Lint: true, Files: 1, EnabledAgg: rng.Below(4) == 0}
 	if rng.Below(12) == 0 {
 		ci.NoUser, ci.User = true, nil
 	}
